@@ -234,7 +234,7 @@ class RunResult:
 
 
 def run_sim(spec, listeners=(), failpoints=None, device=None, seed_solution=None, keep_dir=False,
-            pre_solve=None, workdir=None):
+            pre_solve=None, workdir=None, options_obj=None):
     """Run tdgl.solve once under the flight recorder. Returns RunResult with
     .device .options .solution .exception .outdir .output_path .recorder .refused"""
     import tdgl
@@ -253,6 +253,11 @@ def run_sim(spec, listeners=(), failpoints=None, device=None, seed_solution=None
     rr.outdir = workdir or tempfile.mkdtemp(prefix="vt_run_", dir=os.environ.get("VT_TMP"))
     path = os.path.join(rr.outdir, "out.h5") if out_mode == "file" else None
     options = build_options(spec["options"], output_file=path)
+    if options_obj is not None:
+        # an options object supplied by the caller (e.g. the one re-loaded from a Solution file)
+        options = options_obj
+        options.output_file = path
+        options.progress_interval = 10**9
     options.pause_on_interrupt = spec.get("options", {}).get("pause_on_interrupt", False)
     rr.options = options
     avp, tc, eps = build_drive(spec.get("drive", {}), device, options)
